@@ -190,6 +190,39 @@ Theorem C12_lexer_sound : forall eq ts, np_lex eq = Some ts ->
 Proof. exact np_lex_sound_all. Qed.
 Print Assumptions C12_lexer_sound.
 
+(* --- model = NumpySpec, GENERAL (interleaved form) ------------------------------------------
+   For EVERY interleaved call einsum(op0, sublist0, ..., [sublistout]) that numpy's rules accept
+   (integer labels 0..51, Ellipsis), with or without output sublist -- except the known class whose
+   ONLY Ellipsis is in the output sublist (finding interleaved-output-ellipsis-only) -- the code as it
+   stands builds an equation string and parses it to numpy's terms and output, letters renamed to the
+   model's own symbols (allocated by first appearance) and LB k to the model's ellipsis symbols.
+   This includes the now-fixed implicit output order (sorted by label, broadcast dimensions first). *)
+Theorem C12_interleaved_matches_numpy : forall ops out nops nout,
+  np_parse_inter ops out = Some (nops, nout) ->
+  (match out with Some o => In IE o -> In IE (concat (map snd ops)) | None => True end) ->
+  exists eq, convert_from_interleaved_v true (map snd ops) out = Some eq /\
+    let E := model_ellipses_inds eq (map fst ops) in
+    let r := rho_args (AInter ops out) E in
+    parse_equation_ellipses_v true eq (map fst ops) = Some (map (map r) nops, map r nout).
+Proof. exact inter_matches_numpy. Qed.
+Print Assumptions C12_interleaved_matches_numpy.
+
+Theorem C12_interleaved_form_agrees_with_numpy : forall fx ops out,
+  fx_inter fx = true -> fx_outell fx = true ->
+  (match out with Some o => In IE o -> In IE (concat (map snd ops)) | None => True end) ->
+  agrees_args_v fx (AInter ops out) = match np_parse_inter ops out with Some _ => Some true | None => None end.
+Proof. exact inter_agrees_with_numpy. Qed.
+Print Assumptions C12_interleaved_form_agrees_with_numpy.
+
+(* the renaming of the letters is injective: distinct labels of the call receive distinct symbols *)
+Theorem C12_interleaved_symbols_injective : forall inputs, exists c,
+  sm_wf (get_symbol_map inputs) c /\
+  (forall y, In y (map fst (get_symbol_map inputs)) <-> In y (concat inputs)) /\
+  (forall k1 k2, In (IL k1) (concat inputs) -> In (IL k2) (concat inputs) ->
+     sigma (get_symbol_map inputs) k1 = sigma (get_symbol_map inputs) k2 -> k1 = k2).
+Proof. exact get_symbol_map_injective. Qed.
+Print Assumptions C12_interleaved_symbols_injective.
+
 (* --- model = NumpySpec: bounded exhaustive form, kept as independent evidence (vm_compute) ----
    FULL STATEMENTS (now proved in general above for the string form; see below for interleaved):
      ellipsis_expansion_matches_numpy / implicit_output_matches_numpy / interleaved_matches_numpy:
